@@ -30,10 +30,11 @@ CHARGERS = [
     ["LEVEL_2", "electric", 7.2, "kilowatts"],
     ["DCFC", "electric", 50, "kilowatts"],
     ["DC150", "electric", 150, "kilowatts"],
+    ["DC20", "electric", 20, "kilowatts"],      # above the usual taper cut-off, below what the vehicles accept
     ["GAS_PUMP", "gasoline", 0.16, "gal_per_second"],
     ["GAS_SLOW", "gasoline", 0.002, "gal_per_second"],
 ]
-ELECTRIC = ["LEVEL_1", "LEVEL_2", "DCFC", "DC150"]
+ELECTRIC = ["LEVEL_1", "LEVEL_2", "DCFC", "DC150", "DC20"]
 GASOLINE = ["GAS_PUMP", "GAS_SLOW"]
 ENERGY_OF = {c[0]: c[1] for c in CHARGERS}
 
@@ -239,7 +240,7 @@ def gen_world(rng, profile=None):
 
     stations = []
     for i in range(ns):
-        kinds = rng.sample(["LEVEL_2", "DCFC", "DC150", "GAS_PUMP", "LEVEL_1", "GAS_SLOW"], rng.randint(1, 3))
+        kinds = rng.sample(["LEVEL_2", "DCFC", "DC150", "GAS_PUMP", "LEVEL_1", "GAS_SLOW", "DC20"], rng.randint(1, 3))
         stations.append(
             {
                 "id": f"s{i}",
